@@ -404,6 +404,13 @@ pub fn run(line: &str) -> Option<(String, Vec<String>)> {
                     token.cancel();
                     let mut progress = Progress::none().with_cancellation(&token);
                     e.write_surface_with_progress(view, &mut progress)
+                } else if i % 2 == 1 {
+                    // the same call through the progress-reporting entry point, with a live (never cancelled) token
+                    let token = CancellationToken::new();
+                    let mut seen = 0u32;
+                    let mut rep = |_p: f32| seen += 1;
+                    let mut progress = Progress::new(&mut rep).with_cancellation(&token);
+                    e.write_surface_with_progress(view, &mut progress)
                 } else {
                     e.write_surface(view)
                 }
